@@ -11,13 +11,22 @@ LEVEL_TEXT = ("Lean theorems about the merge model (master_active_objects, get_w
               "correspondence run of fetch (full result tree incl. template flags, word lines, and the unused list) over "
               "generated masters x 0-3 sources; the oracle walks the implementation's result against the master as the "
               "statement says and re-fetches with disabled source objects removed.")
-LEVEL_NOTE = ("Sources are variable-free and alias-free in the model. Finding D9: a .multiple object with a further master "
-              "occurrence inside a .multiple scope makes M.fetch() raise TypeError (raw extract of the master clobbers the list).")
+LEVEL_NOTE = ("Sources are alias-free in the model. D9 (a .multiple object with a further or commented-out master occurrence inside a "
+              ".multiple scope made M.fetch() raise TypeError) is fixed in /repo (bcaa855); the model follows the repaired code and "
+              "kernel-checked witnesses record the now successful fetches.")
 TECHNIQUE = "Lean 4 shape theorem on the fetch model + differential correspondence + tree-walk oracle"
 RULE = ("masters (depth <= 3, every built-in type, .multiple/.optional combinations incl. multiples nested in multiple scopes, "
         "disabled objects, expert levels, non-canonical defaults, further occurrences) x 0-3 sources (matching, partial, unknown "
         "names, repeated, disabled, dotted or nested); non-trivial = at least one source sets a parameter")
 ASSUMPTIONS = ["masters have unique sibling names apart from further occurrences of .multiple objects"]
+
+
+def declared_deprecated(mo):
+    """what the master text says, whatever object the parser stored for it"""
+    v = mo.deprecated
+    if isinstance(v, str):
+        return v.strip().lower() in ("true", "yes", "on", "1")
+    return bool(v)
 
 
 def shape(ms, ws, path=""):
@@ -45,7 +54,7 @@ def shape(ms, ws, path=""):
             group.append(kids[i])
             i += 1
         p = path + mo.name
-        if mo.is_definition and mo.deprecated:
+        if mo.is_definition and declared_deprecated(mo):
             if len(group) > 1:
                 return "%s: deprecated parameter occurs %d times" % (p, len(group))
         elif not mo.multiple:
